@@ -73,7 +73,7 @@ CFG = {
                 "float64 -> exact rational conversion of every observed number is done by the harness (math.Frexp)",
                 "tolerances (1e-9 x magnitude; 1e-13 on the tiny-angle stream) for the float stream are computed by the harness and applied in Coq",
                 "harness-side float64 reference oracles (oracle.go: entry-wise sums, row-by-column sums, Leibniz determinant, "
-                "Hamilton / sandwich product, R(S*v)+T, interval membership) with tolerance 1e-12 (exact stream) / 1e-9 x sum of |terms|"],
+                "Hamilton / sandwich product, R(S*v)+T, interval membership) with tolerance 1e-14 (exact stream) / 1e-9 x sum of |terms|"],
     "modelled": ["IEEE-754 rounding is not modelled: theorems are over rings/fields/R, executions over Q",
                  "math.Sqrt/Sin/Cos/Pi over Q are 160-bit / 40-term approximations (tolerance cases only)",
                  "modeling.Mesh.Rotate/Translate/Scale: hand-written model (map over Position), correspondence only; "
